@@ -11,7 +11,7 @@ for d in seeded/C*-*/; do
   [ -n "$pat" ] && [[ "$name" != $pat ]] && continue
   [ -f "$d/patch.diff" ] || continue
   extra=$(python3 -c "import json;print(' '.join(json.load(open('$d/meta.json')).get('also_checked_by',[])))" 2>/dev/null)
-  res=$(timeout 1800 tools/try_mutant.sh "$d/patch.diff" "$tier" $p $extra 2>&1)
+  res=$(timeout 1800 tools/try_mutant.sh "/verif/${d}patch.diff" "$tier" $p $extra 2>&1)
   line=$(echo "$res" | grep "^== " | tr '\n' ' ')
   echo "$name | $line" | tee -a "$tmp"
 done
